@@ -13,6 +13,7 @@ func init() {
 	vrt.Register("C18_tag_split_merge", TagSplitMerge)
 	vrt.Register("C18_comment_tags", CommentTags)
 	vrt.Register("C18_comment_tags_quote_hash", CommentTagsQuoteHash)
+	vrt.Register("C18_comment_tags_non_ascii", CommentTagsNonASCII)
 	vrt.Register("C18_comments_in_blocks", CommentsInBlocks)
 }
 
@@ -207,6 +208,35 @@ func TagSplitMerge() {
 func CommentTagsQuoteHash() { commentTags("c#\"`\\'<-", 1) }
 
 func CommentTags() { commentTags("c \n{}(=1.,;", 0) }
+
+// the same with arbitrary bytes outside ASCII (every value 0x80..0xff: valid 2-, 3-
+// and 4-byte characters, stray continuation bytes, invalid lead bytes), directly
+// in front of the closing %> or followed by one ASCII byte
+func CommentTagsNonASCII() {
+	p := programs[vrt.Choice(len(programs))]
+	at := vrt.Choice(len(p.stmts) + 1)
+	n := vrt.IntRange(1, 2+vrt.Tier())
+	body := vrt.Bytes(n)
+	for i := 0; i < len(body); i++ {
+		vrt.Assume(body[i] >= 0x80)
+	}
+	body = "c" + body + vrt.BytesIn(vrt.IntRange(0, 1), " c")
+	s := ""
+	for i, st := range p.stmts {
+		if i == at {
+			s += "<%#" + body + "%>"
+		}
+		s += "<%"
+		for _, t := range st {
+			s += " " + t
+		}
+		s += " %>"
+	}
+	if at == len(p.stmts) {
+		s += "<%#" + body + "%>"
+	}
+	same(p, s+p.tail)
+}
 
 func commentTags(alphabet string, extra int) {
 	p := programs[vrt.Choice(len(programs))]
